@@ -16,7 +16,7 @@ pub fn property() -> Property {
     Property {
         id: "C18",
         level: "exploration",
-        rule: "Bounded-exhaustive matrix: every charset exported by attohttpc::charsets (40) x its labels (canonical name + WHATWG aliases; plus the 6 labels of the WHATWG `replacement` decoder) in lower/upper/mixed case x media type {4 common ones, 3 of 53..71 characters} x Content-Type form {`t/s; charset=l`, `t/s;charset=l`, absent, unknown label, no parameter} x default-charset setting {unset, session, request, session overridden by request, session reset to None by the request} x API {text, text_with(other), text_utf8, text_reader with caller buffers 1,2,3,4,5,16,8192; a third of the reads through the reader half of Response::split()} x body kind {valid text in that encoding, random bytes, truncated multi-byte tail, lone surrogates / ISO-2022-JP escape garbage}; plus EVERY single cut offset and the bytewise script of 14 fixed multi-byte bodies (exhaustive; splits every multi-byte sequence at every inner offset) and seeded random cases incl. BOM-prefixed bodies. 'reader-plans': EVERY cycle of three caller buffer sizes in 1..=6 on text_reader() over six bodies whose last character is cut short or that mix characters of every UTF-8 length. Oracle: one-shot encoding_rs decode_without_bom_handling with the charset the statement selects; for BOM-prefixed bodies only 'streaming/segmented == unsegmented through the same API'; no API may return Err. Non-trivial: body non-empty; distinct = hash(head, body, segmentation, API, defaults).",
+        rule: "Bounded-exhaustive matrix: every charset exported by attohttpc::charsets (40) x its labels (canonical name + WHATWG aliases; plus the 6 labels of the WHATWG `replacement` decoder) in lower/upper/mixed case x media type {4 common ones, 3 of 53..71 characters} x Content-Type form {`t/s; charset=l`, `t/s;charset=l`, absent, unknown label, no parameter} x default-charset setting {unset, session, request, session overridden by request, session reset to None by the request} x API {text, text_with(other), text_utf8, text_reader with caller buffers 1,2,3,4,5,16,8192; a third of the reads through the reader half of Response::split()} x body kind {valid text in that encoding, random bytes, truncated multi-byte tail, lone surrogates / ISO-2022-JP escape garbage}; plus EVERY single cut offset and the bytewise script of 14 fixed multi-byte bodies (exhaustive; splits every multi-byte sequence at every inner offset) and seeded random cases incl. BOM-prefixed bodies. 'reader-plans': EVERY cycle of three caller buffer sizes in 0..=6 (a 0 = the rest is taken with read_to_end / read_to_string) on text_reader() over six bodies whose last character is cut short or that mix characters of every UTF-8 length. Oracle: one-shot encoding_rs decode_without_bom_handling with the charset the statement selects; for BOM-prefixed bodies only 'streaming/segmented == unsegmented through the same API'; no API may return Err. Non-trivial: body non-empty; distinct = hash(head, body, segmentation, API, defaults).",
         assumptions: &["quoted or second-position charset parameters are not generated", "encoding_rs is the decoding oracle (the statement defines decoding as lossy WHATWG decoding)"],
         min_nontrivial: |t| t.pick(5_000, 100_000),
         gens,
@@ -29,7 +29,7 @@ fn gens(tier: Tier) -> Vec<Gen> {
     vec![
         Gen { name: "matrix", count: matrix_count(), exhaustive: true, run: run_matrix },
         Gen { name: "everycut", count: everycut_count(), exhaustive: true, run: run_everycut },
-        Gen { name: "reader-plans", count: 216 * READER_PLAN_BODIES as u64, exhaustive: true, run: run_reader_plans },
+        Gen { name: "reader-plans", count: 343 * READER_PLAN_BODIES as u64, exhaustive: true, run: run_reader_plans },
         Gen { name: "random", count: tier.pick(3_000, 150_000), exhaustive: false, run: run_random },
     ]
 }
@@ -48,7 +48,7 @@ pub const ALL: [Charset; 40] = [
 /// WHATWG labels (a subset per encoding, the canonical name is always added)
 const ALIASES: &[(&str, &[&str])] = &[
     ("UTF-8", &["utf8", "unicode-1-1-utf-8", "unicode11utf8", "x-unicode20utf8"]),
-    ("windows-1252", &["latin1", "iso-8859-1", "ascii", "us-ascii", "l1", "cp1252", "x-cp1252", "iso88591", "cp819", "ibm819"]),
+    ("windows-1252", &["latin1", "iso-8859-1", "ascii", "us-ascii", "l1", "cp1252", "x-cp1252", "iso88591", "cp819", "ibm819", "iso_8859-1:1987", "iso-ir-100", "csisolatin1"]),
     ("Shift_JIS", &["sjis", "ms_kanji", "windows-31j", "x-sjis", "csshiftjis", "ms932"]),
     ("IBM866", &["866", "cp866", "csibm866"]),
     ("KOI8-R", &["koi", "koi8", "koi8_r", "cskoi8r"]),
@@ -60,13 +60,18 @@ const ALIASES: &[(&str, &[&str])] = &[
     ("ISO-2022-JP", &["csiso2022jp"]),
     ("UTF-16LE", &["utf-16", "ucs-2", "unicode", "csunicode", "iso-10646-ucs-2", "unicodefeff"]),
     ("UTF-16BE", &["unicodefffe"]),
-    ("ISO-8859-2", &["latin2", "l2", "iso8859-2", "csisolatin2"]),
-    ("ISO-8859-5", &["cyrillic", "csisolatincyrillic"]),
-    ("ISO-8859-7", &["greek", "greek8", "ecma-118", "sun_eu_greek"]),
-    ("ISO-8859-8", &["hebrew", "visual", "csiso88598e"]),
+    // (the nine WHATWG labels with a colon are legal token characters... for the label, not for
+    //  every Content-Type parser: `iso_8859-N:YYYY`)
+    ("ISO-8859-2", &["latin2", "l2", "iso8859-2", "csisolatin2", "iso_8859-2:1987"]),
+    ("ISO-8859-3", &["latin3", "iso_8859-3:1988", "iso-ir-109"]),
+    ("ISO-8859-4", &["latin4", "iso_8859-4:1988", "iso-ir-110"]),
+    ("ISO-8859-5", &["cyrillic", "csisolatincyrillic", "iso_8859-5:1988"]),
+    ("ISO-8859-6", &["arabic", "asmo-708", "iso_8859-6:1987", "ecma-114"]),
+    ("ISO-8859-7", &["greek", "greek8", "ecma-118", "sun_eu_greek", "iso_8859-7:1987"]),
+    ("ISO-8859-8", &["hebrew", "visual", "csiso88598e", "iso_8859-8:1988"]),
     ("ISO-8859-8-I", &["logical", "csiso88598i"]),
     ("windows-1251", &["cp1251", "x-cp1251"]),
-    ("windows-1254", &["latin5", "iso-8859-9", "l5"]),
+    ("windows-1254", &["latin5", "iso-8859-9", "l5", "iso_8859-9:1989"]),
     ("windows-874", &["tis-620", "iso-8859-11", "dos-874"]),
     ("macintosh", &["mac", "x-mac-roman", "csmacintosh"]),
     ("x-mac-cyrillic", &["x-mac-ukrainian"]),
@@ -260,6 +265,24 @@ fn run_api_split(resp: attohttpc::Response, api: &Api, with: Charset) -> Result<
             loop {
                 let sz = sizes[turn % sizes.len()];
                 turn += 1;
+                if sz == 0 {
+                    // size 0 in a plan: the rest is taken with read_to_end / read_to_string
+                    // (read_to_string only where the bytes taken so far end on a character boundary:
+                    //  std validates what IT appends, and a caller that split a character with its
+                    //  own small reads cannot expect the remainder to be valid UTF-8 by itself)
+                    let res = if turn % 2 == 0 || std::str::from_utf8(&out).is_err() {
+                        r.read_to_end(&mut out).map(|_| ())
+                    } else {
+                        let mut rest = String::new();
+                        let res = r.read_to_string(&mut rest).map(|_| ());
+                        out.extend_from_slice(rest.as_bytes());
+                        res
+                    };
+                    if let Err(e) = res {
+                        return Err(format!("{:?}: {e}", e.kind()));
+                    }
+                    break;
+                }
                 match r.read(&mut buf[..sz]) {
                     Ok(0) => break,
                     Ok(k) => out.extend_from_slice(&buf[..k]),
@@ -296,6 +319,24 @@ fn run_api(resp: attohttpc::Response, api: &Api, with: Charset) -> Result<String
             loop {
                 let sz = sizes[turn % sizes.len()];
                 turn += 1;
+                if sz == 0 {
+                    // size 0 in a plan: the rest is taken with read_to_end / read_to_string
+                    // (read_to_string only where the bytes taken so far end on a character boundary:
+                    //  std validates what IT appends, and a caller that split a character with its
+                    //  own small reads cannot expect the remainder to be valid UTF-8 by itself)
+                    let res = if turn % 2 == 0 || std::str::from_utf8(&out).is_err() {
+                        r.read_to_end(&mut out).map(|_| ())
+                    } else {
+                        let mut rest = String::new();
+                        let res = r.read_to_string(&mut rest).map(|_| ());
+                        out.extend_from_slice(rest.as_bytes());
+                        res
+                    };
+                    if let Err(e) = res {
+                        return Err(format!("{:?}: {e}", e.kind()));
+                    }
+                    break;
+                }
                 match r.read(&mut buf[..sz]) {
                     Ok(0) => break,
                     Ok(k) => out.extend_from_slice(&buf[..k]),
@@ -436,6 +477,9 @@ fn all_labels() -> Vec<(Charset, String)> {
     let mut v = Vec::new();
     for cs in &ALL[..38] {
         for l in labels_for(cs) {
+            // (guards the table above against typing mistakes: a label the WHATWG table does not
+            //  know, or knows for another encoding, would make the harness's expectation wrong)
+            assert_eq!(encoding_rs::Encoding::for_label(l.as_bytes()), Some(*cs), "harness alias table: {l}");
             v.push((*cs, l));
         }
     }
@@ -521,14 +565,16 @@ fn run_everycut(ctx: &mut Ctx, _rng: &mut Rng, index: u64) {
 
 const READER_PLAN_BODIES: usize = 6;
 
-/// EVERY cycle of three caller buffer sizes in 1..=6 on text_reader(), over bodies whose last
+/// EVERY cycle of three caller buffer sizes in 0..=6 (0 = the rest through read_to_end / read_to_string) on text_reader(), over bodies whose last
 /// character is cut short (the replacement character is produced by the end-of-stream flush) and
 /// bodies of characters of every UTF-8 length: mixed sizes below and above the reader's 4-byte
 /// staging buffer in one read sequence
 fn run_reader_plans(ctx: &mut Ctx, _rng: &mut Rng, index: u64) {
-    let plan = index % 216;
-    let sizes = [(plan / 36) as usize + 1, (plan / 6 % 6) as usize + 1, (plan % 6) as usize + 1];
-    let (cs, body): (Charset, Vec<u8>) = match index / 216 {
+    // sizes 0..=6; the first is at least 1; a 0 later in the plan stands for "take the rest with
+    // read_to_end / read_to_string" (after reads that may have left decoded bytes staged)
+    let plan = index % 343;
+    let sizes = [((plan / 49) as usize).max(1), (plan / 7 % 7) as usize, (plan % 7) as usize];
+    let (cs, body): (Charset, Vec<u8>) = match index / 343 {
         0 => (encoding_rs::UTF_8, b"abc\xC3".to_vec()),
         1 => (encoding_rs::UTF_8, "a\u{e9}\u{20ac}\u{1d11e}b\u{e9}\u{e9}".as_bytes().to_vec()),
         2 => (encoding_rs::UTF_8, b"ab\xE2\x82".to_vec()),
@@ -567,7 +613,7 @@ fn run_random(ctx: &mut Ctx, rng: &mut Rng, index: u64) {
     let seg = respgen::random_segmentation(rng, body.len() + 80, &[]);
     let mut api = rng.pick(&apis()).clone();
     if rng.chance(1, 8) {
-        api = Api::TextReaderPlan([rng.range(1, 7), rng.range(1, 7), rng.range(1, 9000)]);
+        api = Api::TextReaderPlan([rng.range(1, 7), rng.range(0, 7), rng.range(0, 9000)]);
     }
     if rng.bool() {
         ctx.count("malformed_bodies", 1);
